@@ -23,11 +23,8 @@ theorem Spec.step_stored_head (s : Spec) (req : Nat) (b : Blk) (rest : List (Nat
     (hev : s.ev.blocks = (req, b) :: rest) (hok : b.ok = true) (hs : succession s.chain b = .stored) :
     Spec.step s (.obs (.stored b.num b.hash)) =
       .ok { s with chain := b :: s.chain, pending := [],
-                   owed := s.owed ++ (match rangeOf s.pending with
-                                      | some r => [Obs.reorg r] | none => [])
-                                  ++ [Obs.newHead b.num b.hash] } := by
+                   owed := s.owed ++ reorgObs (rangeOf s.pending) ++ [Obs.newHead b.num b.hash] } := by
   simp [Spec.step, hev, hok, hs]
-  split <;> rfl
 
 theorem Spec.step_newHead (s : Spec) (n h : Nat) (rest : List Obs)
     (ho : s.owed = Obs.newHead n h :: rest) :
